@@ -26,6 +26,8 @@ pub enum Fault {
     ReadTimeout,
     Invalid,
     ConnCut,
+    /// the node has forgotten the prepared statement (only meaningful for prepared pagers; ignored otherwise)
+    Unprepared,
 }
 
 #[derive(Debug, Clone, Copy, PartialEq, Eq, Serialize, Deserialize)]
@@ -146,6 +148,14 @@ impl Script for PagingScript {
             }),
             Some(Fault::Invalid) => Action::Reply(RespBody::Error { code: 0x2200, msg: "invalid".into(), extra: ErrExtra::None }),
             Some(Fault::ConnCut) => Action::Close { rst: false },
+            Some(Fault::Unprepared) => match &_frame.body {
+                ReqBody::Execute { id, .. } => Action::Reply(RespBody::Error { code: 0x2500, msg: "unprepared".into(), extra: ErrExtra::Unprepared { id: id.clone() } }),
+                // an unprepared QUERY cannot be "unprepared": serve it
+                _ => {
+                    seen.served = true;
+                    Action::Reply(self.page_body(page))
+                }
+            },
         };
         self.seen.lock().unwrap().push(seen);
         action
@@ -161,6 +171,13 @@ fn model(c: &Case) -> (usize, bool) {
             let retried = match f {
                 Fault::Delay(_) => break,
                 Fault::Bootstrapping => true,
+                // re-preparation is transparent and not a retry-policy matter
+                Fault::Unprepared => {
+                    if c.kind == Kind::QueryNoValues {
+                        break;
+                    }
+                    true
+                }
                 Fault::Overloaded | Fault::ConnCut => c.idempotent,
                 Fault::ReadTimeout => {
                     let r = !read_timeout_retried;
@@ -350,6 +367,8 @@ pub fn case() -> BoxedStrategy<Case> {
         1 => Just(vec![Fault::ReadTimeout, Fault::ReadTimeout]),
         2 => Just(vec![Fault::Overloaded]),
         1 => Just(vec![Fault::Invalid]),
+        2 => Just(vec![Fault::Unprepared]),
+        1 => Just(vec![Fault::Unprepared, Fault::Bootstrapping]),
     ];
     (
         proptest::collection::vec(prop_oneof![2 => Just(0u16), 6 => 1u16..40, 1 => 40u16..120], 1..=8),
